@@ -156,12 +156,14 @@ def run(C, R):
                        '%s:%s' % (fn['file'], fn['line']), {'trace': trace_summary(path)})
         # ---- ArrayBuf::drop (loop, unrolled)
         fn = fn_of(ARRAY, 'drop')
+        ndropped = set()
         for path in E.run(fn['path']):
             R.add_paths(fn['path'], 1)
             if path.exit != 'return':
                 continue
             ops = raw_ops(path)
             nraw += len(ops)
+            ndropped.add(min(len(ops), 2))
             # replay the loop: symbolic (recv, size) evolve; each drop_in_place at the current recv_idx
             recv, size = S('recv_idx'), S('size')
             good = True
@@ -186,6 +188,13 @@ def run(C, R):
                        'Drop must walk `size` elements from recv_idx, dropping each in place exactly once and '
                        'advancing recv_idx / decreasing size', '%s:%s' % (fn['file'], fn['line']),
                        {'trace': trace_summary(path)})
+        for k in (0, 1, 2):
+            if k in ndropped:
+                R.ok('C19.R1', '%s|returns after dropping %s%d element(s)' % (fn['path'], '>= ' if k == 2 else '', k))
+            else:
+                R.fail('C19.R1', [fn['path'], 'drop-loop-does-not-terminate', str(k)],
+                       'Drop of ArrayBuf has no returning path that drops %s%d element(s): the walk does not '
+                       'advance / end' % ('>= ' if k == 2 else '', k), '%s:%s' % (fn['file'], fn['line']))
         R.floor('C19.R1 raw-access-instances[%s]' % cfg, nraw, 5)
         # ---- next_idx
         fn = fn_of(ARRAY, 'next_idx')
